@@ -3,6 +3,6 @@ check("C04", "fault_enumeration",
       "(quick) / 2 crashes (thorough); on the real binary a dry run of each workload {finish, long-running, cancel, release, remote unit executed by a second daemon} lists every reachable (crash point, k, role daemon|runner), "
       "and for each selected point a fresh daemon is killed there (SIGKILL from the hook), restarted on the same directory and queried (work list/status/results with deadlines); answers are "
       "compared with Durable instantiated with what the client had been told. Thorough enumerates all points (about 250) plus crashes during recovery; quick a prioritised sample of 24.",
-      "Process crashes only (no file-system/power-loss semantics); no crash points inside remote_work.go; scripted scenarios: unit on disk only, live runner marked failed (TLC leads), executor node killed while a remote unit runs. "
+      "Process crashes only (no file-system/power-loss semantics); no crash points inside remote_work.go; scripted scenarios: unit on disk only, live runner marked failed (TLC leads), executor node killed while a remote unit runs, daemon and runner killed together before the payload starts. "
       "Open findings: empty status after a kill between truncate and write; live runner marked 'Pending at restart'.",
       "TLA+ spec + TLC; crash-point enumeration on the real binary with a policy oracle (B1)", "E3 daemon", "DESIGN.md section 6 C04")
